@@ -542,7 +542,7 @@ def validate_fixture(work):
     open(os.path.join(base, "s_on.yaml"), "w").write("input:\n  recursive: true\n")
     D, F = os.path.join(base, "dir"), os.path.join(base, "file.cmake")
     scen = [(D, []), (F, ["-p", "x"]), (D, ["-s", os.path.join(base, "s_off.yaml")]), (D, ["-s", os.path.join(base, "s_on.yaml")]),
-            (D, ["-s", os.path.join(base, "missing.yaml"), "extra"]), (D, ["-t", "T", "QUIET"]), (F, ["MANY", "a", "b", "-t", "OFF"]),
+            (D, ["-s", os.path.join(base, "missing.yaml"), "extra"]), (D, ["-t", "T", "QUIET"]), (D, ["MANY", "a", "b", "-t", "OFF"]), (F, ["MANY", "a", "QUIET"]),
             (D, ["x", "-s", "0"]), (D, ["QUIET", "-s"])]
     rec = os.path.join(work, "cmk", "recorder.sh")
     n = 0
